@@ -3,12 +3,13 @@ import itertools
 import json
 import re
 
-from ..core import Result, out_bytes
+from ..core import Result, out_bytes, file_crosscheck
+import random
 from .. import gen, model
 from ..val import veq, clone
 
 ID = 'C12'
-NEED_BINS = False
+NEED_BINS = True
 SIZES = {'quick': 8000, 'thorough': 2000000}
 REQUIRED_EVENTS = ['unrolled_agreed', 'bad_counts_rejected']
 RULE = ('templates with $repeat at document level (map and list form), as list entries and as map entries with index-dependent keys, '
@@ -267,6 +268,9 @@ def check_case(ctx, case):
     if not veq(vd.get('values'), vu.get('values')):
         return res.violate('unroll', '$repeat expansion differs from the hand-unrolled document in value types', case=case, expect=vu.get('values'), got=vd.get('values'))
     res.ev('unrolled_agreed')
+    if case.get('i', 0) % 12 == 0 and len(layers) == 1:
+        if not file_crosscheck(ctx, res, [render_direct(layers[0])], True, out_bytes(od), {'case': case}, random.Random(case.get('i', 0))):
+            return res
     res.ev('copies_checked', len(unrolled))
     res.labels.add('copies:%s' % (len(got) if len(got) < 6 else '6+'))
     return res
